@@ -46,12 +46,12 @@ func LalrK(r *rand.Rand) *PGrammar {
 		midLen = r.Intn(5)
 	}
 	type midEl struct {
-		kind  int // 0 terminal, 1 nonterminal deriving one terminal, 2 nullable nonterminal, 3 nonterminal deriving two terminals
+		kind  int // 0 terminal, 1 nonterminal deriving one terminal, 2 nullable nonterminal, 3 nonterminal deriving two terminals, 4 nonterminal 't Opt' with Opt: t2 | %empty (the next token lies behind a nullable suffix)
 		t, t2 cfg.Sym
 	}
 	var mid []midEl
 	for i := 0; i < midLen; i++ {
-		mid = append(mid, midEl{kind: r.Intn(4), t: rt(), t2: rt()})
+		mid = append(mid, midEl{kind: r.Intn(5), t: rt(), t2: rt()})
 	}
 	helper := 0
 	newHelper := func(rhs ...cfg.Sym) cfg.Sym {
@@ -59,6 +59,13 @@ func LalrK(r *rand.Rand) *PGrammar {
 		helper++
 		rule(h, rhs...)
 		return nt(h)
+	}
+	optTail := func(t, t2 cfg.Sym) cfg.Sym {
+		o := nonterm(fmt.Sprintf("H%d", helper))
+		helper++
+		rule(o, t2)
+		rule(o)
+		return newHelper(t, nt(o))
 	}
 	sharedMid := r.Intn(2) == 0 // middle nonterminals shared between alternatives or private copies
 	var sharedSyms []cfg.Sym
@@ -73,6 +80,8 @@ func LalrK(r *rand.Rand) *PGrammar {
 				sharedSyms = append(sharedSyms, newHelper())
 			case 3:
 				sharedSyms = append(sharedSyms, newHelper(m.t, m.t2))
+			case 4:
+				sharedSyms = append(sharedSyms, optTail(m.t, m.t2))
 			}
 		}
 	}
@@ -94,6 +103,8 @@ func LalrK(r *rand.Rand) *PGrammar {
 					rhs = append(rhs, newHelper())
 				case 3:
 					rhs = append(rhs, newHelper(m.t, m.t2))
+				case 4:
+					rhs = append(rhs, optTail(m.t, m.t2))
 				}
 			}
 		}
